@@ -12,8 +12,16 @@ CLAIMS = {
              "truncate, clear, append, split_off, drain (every range form; the accepted ranges are the same with and without overflow "
              "checks), retain, drain_filter (also when dropped early), into_iter (front and back) on the slot machine refine the List "
              "specification (contents, returned values, panic iff index/range out of bounds or the growth is refused), keep len <= cap; "
-             "reserve(n)/try_reserve(n) give cap >= len + n, growth is max(2*cap, len+n). Not proved, only compared: resize, extend*, "
-             "splice, dedup*, shrink_to_fit, clone, into_boxed_slice, from_iter_in/collect_in, vec!, io::Write. Correspondence: results, len, capacity, contents (ids and values) "
+             "reserve(n)/try_reserve(n) give cap >= len + n, growth is max(2*cap, len+n). Second group of theorems: splice on every path "
+             "(vector = xs[..st] ++ items[..j] ++ xs[en..], tail always moved back, drained elements returned/dropped, items not inserted "
+             "dropped; j = all and the call returns when nothing panics and the arena serves the growth; any size_hint), extend / "
+             "from_iter_in / collect_in, extend_from_slice, clone (clones carry the values, in order), resize (both branches), "
+             "extend_from_slice_copy, extend_from_slices_copy, io::Write (= extend_from_slice_copy), dedup / dedup_by / dedup_by_key for a "
+             "comparison that is a function of the two elements (result = first element of every run), shrink_to_fit (contents kept, "
+             "cap = len), into_boxed_slice, vec! (both forms). Limits: 'returns' is proved under a sufficient condition on the arena "
+             "(GrowOK), not the exact one; dedup* with index-dependent/panicking comparisons and truncate with panicking destructors "
+             "have no contents theorem (C15/C16 only); Splice::next_back is not modelled; io::Write is compared with std only, not "
+             "replayed by the model driver. Correspondence: results, len, capacity, contents (ids and values) "
              "of every call agree between crate and model; oracle: values, contents, len, panic/no-panic agree with std::vec::Vec run "
              "side by side; cap >= len, cap >= len + reserved; neighbours (other vectors, raw canary blocks, a String, a Box in the same "
              "arena) are re-verified after every call.",
@@ -23,8 +31,10 @@ CLAIMS = {
              "permutation of the ids ever created, which are pairwise distinct) is preserved with no leak by push, pop, insert, remove, "
              "swap_remove, truncate/clear, append, split_off, drain and into_iter (partially consumed from both ends; leaks only when "
              "forgotten), retain, drain_filter, dedup(_by/_by_key), extend; dropping the vector drops exactly the owned ids; "
-             "into_bump_slice emits no drop; hence exactly-once at the end. Not proved, only compared: splice, into_boxed_slice, vec! "
-             "(resize, extend_from_slice, clone, from_iter_in: see C16). Correspondence: the "
+             "into_bump_slice emits no drop; hence exactly-once at the end; also splice (every path: rejected range, any iterator and "
+             "size_hint, partially consumed, refused growth, iterator/destructor panics), into_boxed_slice with the drop of the box, "
+             "vec! (both forms, refused pushes and panicking Clone included) "
+             "(resize, extend_from_slice, clone, from_iter_in: see C16). Not modelled: Splice::next_back. Correspondence: the "
              "sequence of destructor calls and of values handed to the caller of every call agrees between crate and model; oracle: "
              "per-id drop ledger (no double drop, nothing dropped or moved is reachable, nothing lost on non-panicking calls, everything "
              "dropped exactly once after the containers and the arena are dropped, the arena's drop runs no destructor).",
@@ -35,7 +45,10 @@ CLAIMS = {
              "(predicate panicking in a caller's next() or in the destructor, or a yielded element's destructor panicking - the F5 "
              "scenario, fixed in /repo), retain, dedup_by(_key), truncate/clear/drop and into_iter/drain dropped with panicking "
              "destructors, resize/extend_from_slice/clone with a panicking Clone, extend/from_iter_in with a panicking iterator, and by "
-             "dropping the vector afterwards. Not proved, only exercised: splice with a panicking iterator, vec!. Correspondence + oracle: the harness enumerates the panic index of predicate / key / "
+             "dropping the vector afterwards; splice with an iterator panicking at any next() call (in the first fill, after move_tail, while "
+             "the remainder is collected) and/or a panicking destructor of a drained element: Own preserved with no leak, and the "
+             "vector is xs[..st] ++ items[..j] ++ xs[en..] for the j items written before the panic; vec![elem; n] with a panicking "
+             "Clone. One panic per call (a second one while unwinding aborts). Correspondence + oracle: the harness enumerates the panic index of predicate / key / "
              "Clone / Drop / iterator callbacks under catch_unwind (one panic per call) and checks the drop ledger and reachability after "
              "the unwinding and again after dropping the containers (F5 was reproduced this way on the pinned tree before its fix).",
         note=NOTE),
